@@ -343,6 +343,13 @@ func WriteReplay(kind string, input any, msg string) {
 	_ = os.WriteFile(filepath.Join(outDir, "replay."+nameRe.ReplaceAllString(name, "_")+".json"), data, 0o644)
 }
 
+// SetTest names the running test for replay files (fuzz targets).
+func SetTest(name string) {
+	mu.Lock()
+	currentTest = name
+	mu.Unlock()
+}
+
 // Replay returns the saved case in replay mode.
 func Replay() (kind string, input json.RawMessage, test string) {
 	return replayKind, replayInput, replayTest
